@@ -231,7 +231,12 @@ fn run_c08(c: &MCase) -> Outcome {
         let full_perm: Vec<usize> = perm.clone().unwrap_or_else(|| (0..np).collect());
         for r in reads.iter().filter(|r| r.len() >= k) {
             #[allow(deprecated)]
-            let ss: Vec<(usize, usize, u32)> = with_p!(p, P => simple_scan::<_, P>(k, &DnaSlice(r), &full_perm, c.mrc).into_iter().map(|m| (m.start(), m.len(), m.bucket() as u32)).collect());
+            let ss: Vec<(usize, usize, u32)> = with_p!(p, P => simple_scan::<_, P>(k, &DnaSlice(r), &full_perm, c.mrc).into_iter().map(|m| {
+                if m.end() != m.start() + m.len() || m.range() != (m.start()..m.start() + m.len()) || m.is_empty() != (m.len() == 0) {
+                    o.fail("msp-interval-accessors", format!("MspInterval start {} len {}: end() = {}, range() = {:?}, is_empty() = {}", m.start(), m.len(), m.end(), m.range(), m.is_empty()));
+                }
+                (m.start(), m.len(), m.bucket() as u32)
+            }).collect());
             let ms: Vec<(u32, u8, S)> = with_p!(p, P => pieces::<P, DnaBytes>(k, r, perm.as_deref(), c.mrc));
             o.transitions += 1;
             let mut start = 0usize;
